@@ -149,7 +149,7 @@ pub fn jobs(ctx: &Ctx) -> Vec<J> {
         for level in 0..4usize {
             for i in 0..dense {
                 k += 1;
-                jobs.push(J::Dense { v, level, kind: if i < 6 { i } else { 0 }, seed: mix(ctx.seed, k) });
+                jobs.push(J::Dense { v, level, kind: if i < 14 { i } else { 0 }, seed: mix(ctx.seed, k) });
             }
             for _ in 0..ctx.tier.pick(6, ctx.scale(240)) {
                 k += 1;
@@ -252,6 +252,13 @@ pub fn observe(ctx: &Ctx, st: &mut Stats, j: &J) {
                         *x = 0
                     }
                 }),
+                // prescribed per-block shapes: padding pattern in every block, padding pattern except one byte,
+                // zero blocks after the first, one zero block in the middle, identical blocks, leading zeros
+                6..=13 => {
+                    data = crate::craft::data_codewords_for_shape(v, level, kind - 6, seed);
+                    st.count("block_shape_arrays_checked", 1);
+                    st.reach("block_shapes", (kind - 6) as u64);
+                }
                 _ => {}
             }
             let out = match call_structure(&data, v, level) {
@@ -320,8 +327,8 @@ pub fn run(ctx: &Ctx) -> Report {
         ),
     );
     rep.exhaustive = Some(all_values);
-    rep.expected_sets = vec![("blocklen_ec_pairs", npairs), ("degrees", 13), ("generator_cells", 160), ("dense_cells", 160), ("dense_kinds", 6)];
-    rep.required_sets = vec![("blocklen_ec_pairs", npairs), ("degrees", 13), ("generator_cells", 160), ("dense_cells", 160), ("dense_kinds", 6)];
+    rep.expected_sets = vec![("blocklen_ec_pairs", npairs), ("degrees", 13), ("generator_cells", 160), ("dense_cells", 160), ("dense_kinds", 14)];
+    rep.required_sets = vec![("blocklen_ec_pairs", npairs), ("degrees", 13), ("generator_cells", 160), ("dense_cells", 160), ("dense_kinds", 14)];
     rep.min_evaluations = if all_values { 1_300_000 } else { 100_000 };
     rep.assumptions = vec![
         "exhaustive (when true) refers to the single-non-zero-byte basis: every position x every non-zero value for every (block length, degree) pair in use; general contents follow by GF(2)-linearity, which is additionally observed on sampled combinations, not assumed".into(),
